@@ -55,7 +55,7 @@ def load(kind, d, via_yaml=False):
     cls = {"rule": SigmaRule, "correlation": SigmaCorrelationRule, "filter": SigmaFilter}[kind]
     if via_yaml:
         return cls.from_yaml(yaml.safe_dump(d, sort_keys=False))
-    return cls.from_dict(copy.deepcopy(d))
+    return cls.from_dict(d)  # the caller's document itself: loading must not change it (callers pass a private copy)
 
 
 def queries(kind, obj, context):
@@ -79,8 +79,12 @@ def roundtrip(res, sub, kind, doc, context=(), label="", mech="", pre=None):
 
     case = {"sub": sub, "kind": kind, "doc": doc, "context": list(context), "label": label}
     res["evaluations"] += 1
+    doc_given = copy.deepcopy(doc)
     try:
-        x = load(kind, doc)
+        x = load(kind, doc_given)
+        if doc_given != doc:
+            add_violation(res, f"{sub}:loading-changed-the-callers-document:{kind}", case, doc, doc_given, detail=label)
+            return
     except SigmaError:
         res["outcomes"].add(h64("not-loadable"))
         return  # not a loadable document: outside the quantifier
@@ -104,7 +108,11 @@ def roundtrip(res, sub, kind, doc, context=(), label="", mech="", pre=None):
     for via_yaml in (False, True):
         tag = "yaml" if via_yaml else "dict"
         try:
-            x2 = load(kind, d1, via_yaml)
+            d1_given = copy.deepcopy(d1)
+            x2 = load(kind, d1_given, via_yaml)
+            if d1_given != d1:
+                add_violation(res, f"{sub}:loading-changed-the-callers-document:{kind}", case, str(d1)[:300], str(d1_given)[:300], detail=label)
+                continue
         except SigmaError as e:
             add_violation(res, f"{sub}:reload-fails:{type(e).__name__}:{mech}", case, "loads", {"dict": str(d1)[:300], "error": str(e)[:150]}, detail=label)
             continue
@@ -202,7 +210,7 @@ def space_D(tier):
             yield d, f"special/{type(v).__name__}", "empty-list" if v == [] else "plain"
     # modifier chains: singles and accepted 2-chains, on a few values
     mods = R.ALL_MODIFIERS
-    for val in ("a", "a*", "-a b", "10.0.0.0/8", 5, True, "a.*b", "%x%a", "f2", ["a", "b"]):
+    for val in ("a", "a*", "-a b", "10.0.0.0/8", 5, True, "a.*b", "%x%a", "f2", ["a", "b"], "a\\%u\\%b", ["a.*b", "c?d*"]):
         for chain in itertools.chain([(m,) for m in mods], itertools.product(mods, repeat=2)):
             raw = val if isinstance(val, list) else [val]
             try:
